@@ -2,6 +2,7 @@ package checks
 
 import (
 	"context"
+	"errors"
 	"fmt"
 	"runtime"
 	"strings"
@@ -20,7 +21,7 @@ func init() {
 		ID:   "C08",
 		Race: true,
 		Rule: "Chaos scenarios against a real Dials[Cfg] (2-3 fake watchers, optionally a Blank): 4-12 goroutines issue seeded random operations from {report value (blocking/not; valid, invalid, ill-typed), report error, Done, RegisterCallback (fresh/zero token), unregister (once, twice), EnableVerification, Blank.SetSource/Done, any of these with an own context that is already or soon cancelled, cancel the Config context} with seeded yields at the dials hook points; " +
-			"then the instance is shut down (context cancel, or every watcher calls Done) and late calls are made after the monitor exited. Scripted placements: Config context cancelled exactly when the monitor has received an update (mon.recv gate), 1-4 late EnableVerification calls, late register/unregister/report, double unregister, and a callback parked forever while 200 blocking reports must still install. " +
+			"then the instance is shut down (context cancel, or every watcher calls Done) and late calls are made after the monitor exited. Scripted placements: Config context cancelled exactly when the monitor has received an update (mon.recv gate), 1-4 late EnableVerification calls, late register/unregister/report, double unregister, a callback parked forever while 200 blocking reports must still install, unregister calls pending behind a parked callback when the instance shuts down (they must return, with failure, once their own context ends), and a Blank whose owner calls Done after SetSource calls that failed in the inner source's first Value() (watcher-shaped or plain inner sources; with the other watchers done the goroutines must exit). " +
 			"Monitors: operation ledger (every call must return once its own context has ended; a call still blocked is confirmed by two goroutine dumps), leak monitor (no dials monitor/runCBs goroutine after shutdown once the harness released its callbacks), failure-indication check for post-shutdown calls, the race detector, and the process watcher (panic/fatal error = violation attributed to the pre-logged case). " +
 			"distinct_nontrivial = distinct (options, op-kind multiset, shutdown mode) signatures.",
 		Assumptions: []string{
@@ -29,8 +30,8 @@ func init() {
 		},
 		MinDistinct: map[string]int{"quick": 150, "thorough": 5000},
 		MinCounters: map[string]map[string]int64{
-			"quick":    {"ops_issued": 15000, "ops_returned": 15000, "late_calls_checked": 1500, "leak_checks_passed": 300, "blocked_callback_reports": 2000},
-			"thorough": {"ops_issued": 1000000, "late_calls_checked": 100000},
+			"quick":    {"ops_issued": 15000, "ops_returned": 15000, "late_calls_checked": 1500, "leak_checks_passed": 300, "blocked_callback_reports": 2000, "pending_calls_at_shutdown_checked": 20, "unregister_calls_pending_at_shutdown": 15, "blank_done_after_failed_setsource_checked": 15},
+			"thorough": {"ops_issued": 1000000, "late_calls_checked": 100000, "pending_calls_at_shutdown_checked": 1000, "blank_done_after_failed_setsource_checked": 1000},
 		},
 		Plan: func(tier string) fw.Plan {
 			if tier == "thorough" {
@@ -142,7 +143,8 @@ func c08EventsPollers(w *fw.Worker, i int, r *fw.Rand) {
 			for k := 0; k < per && !stuck.Load(); k++ {
 				l := e.NewLayer()
 				l.Set[k%4], l.Set[2] = true, true
-				rctx, cancel := context.WithTimeout(ctx, 5*time.Second)
+				// (watchdog only; 5s was met by mere scheduling delay on a machine with a load average of 300)
+				rctx, cancel := context.WithTimeout(ctx, 30*time.Second)
 				rerr := e.Srcs[s].Report(rctx, l, true)
 				cancel()
 				if rerr != nil {
@@ -157,7 +159,7 @@ func c08EventsPollers(w *fw.Worker, i int, r *fw.Rand) {
 	w.Count("reports_under_events_pollers", int64(2*per))
 	w.Count("events_values_polled", received.Load())
 	if stuck.Load() {
-		// a valid blocking report did not complete within 5s: where is the monitor?
+		// a valid blocking report did not complete within 30s: where is the monitor?
 		stuckVerdict(w, i, "valid blocking report while Events() is being polled", desc)
 		e.S.Cancel()
 		return
@@ -336,6 +338,307 @@ func c08BlankRefusal(w *fw.Worker, i int, r *fw.Rand) {
 	}
 }
 
+// errC08Value is what the failing inner sources of the Blank scenarios return from Value.
+var errC08Value = errors.New("harness: inner source cannot produce a value yet")
+
+// c08BlankFailedSetSource: the owner of a Blank tries to plug a source in, the source's first Value() fails (SetSource
+// returns the error), possibly several times and possibly around a successful SetSource of a plain source; the owner then
+// gives up and calls Done on the Blank. Once the other watchers have called Done too, every watching source has called
+// Done: the monitor and the callback goroutine must exit and late calls must be refused. The failing sources come in both
+// shapes (implementing dials.Watcher or not); none of them was ever handed WatchArgs, so none of them can be expected to
+// call Done itself.
+func c08BlankFailedSetSource(w *fw.Worker, i int, r *fw.Rand) {
+	o := conc.Opts{NSrc: r.Range(2, 3), Delay: r.Chance(25), Suppress: r.Chance(25)}
+	nFail := r.Range(1, 2)
+	plainBefore, plainAfter := r.Chance(30), r.Chance(30)
+	var shapes []string
+	for k := 0; k < nFail; k++ {
+		shapes = append(shapes, []string{"watcher", "watcher", "plain"}[r.Intn(3)])
+	}
+	// In half of the cases the first failing source is a Watcher whose Value() succeeds but whose first value is rejected
+	// by Verify, so SetSource fails one step later, in the propagation; its Watch is never called either. (The library
+	// failed this before /repo commit "fix: a Blank whose Watcher source failed to take over still owns its watch slot".)
+	rejected := false
+	if r.Bool() {
+		shapes[0], rejected = "watcher-value-rejected", true
+		o.Delay, o.Skip = false, false
+	}
+	blankDoneFirst := r.Bool()
+	desc := map[string]any{"mode": "blank-done-after-failed-setsource", "opts": fmt.Sprintf("%+v", o), "failing_inner_sources": shapes, "plain_setsource_before": plainBefore, "plain_setsource_after": plainAfter, "blank_done_first": blankDoneFirst}
+	w.BeginDesc(i, fmt.Sprintf("%v", desc))
+	c, err := c07Start(r, true, o)
+	if err != nil {
+		w.Violation(i, "config-failed", err.Error(), desc)
+		return
+	}
+	e := c.e
+	defer e.S.Cancel()
+	ctx := e.S.Ctx
+	led := &c08Ledger{open: map[int64]string{}}
+	// every Blank call gets a context the harness ends after 30s (nothing here should take that long: no verdict rests
+	// on it) and runs under a watchdog
+	blankCall := func(what string, f func(ctx context.Context)) bool {
+		cctx, cancel := context.WithTimeout(ctx, 30*time.Second)
+		defer cancel()
+		ret := make(chan struct{})
+		go func() { f(cctx); close(ret) }()
+		select {
+		case <-ret:
+			return true
+		case <-time.After(60 * time.Second):
+			g1 := dialsGoroutines([]string{"sourcewrap.(*Blank)"})
+			time.Sleep(300 * time.Millisecond)
+			g2 := dialsGoroutines([]string{"sourcewrap.(*Blank)"})
+			if len(g1) > 0 && len(g2) > 0 {
+				w.Violation(i, "blank-call-blocked-past-its-context:around-failed-setsource", "Blank."+what+" with a 30s context is still blocked 60s later", map[string]any{"case": desc, "goroutine": fw.TrimStack(g2[0])})
+			} else {
+				w.Inconclusive(i, "Blank."+what+" did not return; not provably blocked inside the Blank")
+			}
+			return false
+		}
+	}
+	if plainBefore {
+		if !blankCall("SetSource", func(ctx context.Context) {
+			c.blank.SetSource(ctx, &conc.Src{Name: "plain-before", Init: e.RandLayer(r, 0, 0)})
+		}) {
+			return
+		}
+	}
+	for k, shape := range shapes {
+		var inner dials.Source
+		if shape == "watcher-value-rejected" {
+			bad := e.NewLayer()
+			bad.Set[0], bad.NegA = true, true
+			inner = &conc.WSrc{Src: conc.Src{Name: "watcher-with-rejected-first-value", Init: bad}}
+		} else if shape == "watcher" {
+			inner = &conc.WSrc{Src: conc.Src{Name: fmt.Sprintf("failing-watcher-%d", k), ValueErr: errC08Value}}
+		} else {
+			inner = &conc.Src{Name: fmt.Sprintf("failing-plain-%d", k), ValueErr: errC08Value}
+		}
+		var serr error
+		if !blankCall("SetSource", func(ctx context.Context) { serr = c.blank.SetSource(ctx, inner) }) {
+			return
+		}
+		w.Count("failed_blank_setsource_calls", 1)
+		if serr == nil && shape == "watcher-value-rejected" {
+			w.Violation(i, "blank-setsource-succeeded-although-value-rejected", "SetSource returned nil for a source whose first value fails Verify (verification is on)", desc)
+			return
+		}
+		if serr == nil {
+			w.Violation(i, "blank-setsource-succeeded-although-value-failed", "SetSource returned nil for a source whose Value() returned an error", desc)
+			return
+		}
+	}
+	if plainAfter {
+		// the result is not judged here (C20 judges the Blank's delegation); the call must return
+		if !blankCall("SetSource", func(ctx context.Context) {
+			c.blank.SetSource(ctx, &conc.Src{Name: "plain-after", Init: e.RandLayer(r, 0, 0)})
+		}) {
+			return
+		}
+	}
+	// every watching source calls Done (live contexts)
+	doneBlank := func() bool { return blankCall("Done", func(ctx context.Context) { c.blank.Done(ctx) }) }
+	if blankDoneFirst && !doneBlank() {
+		return
+	}
+	for s := 1; s < o.NSrc; s++ {
+		dctx, dcancel := context.WithTimeout(ctx, 30*time.Second)
+		e.Srcs[s].WA().Done(dctx)
+		dcancel()
+	}
+	if !blankDoneFirst && !doneBlank() {
+		return
+	}
+	select {
+	case <-dials.VerifMonitorDone(e.D):
+	case <-time.After(10 * time.Second):
+		s1, g := monitorState()
+		time.Sleep(300 * time.Millisecond)
+		s2, _ := monitorState()
+		if s1 == "idle" && s2 == "idle" && rejected {
+			w.Violation(i, "monitor-did-not-exit:all-done:blank-done-after-rejected-watcher-setsource", "every watcher called Done with a live context (the Blank after a SetSource that failed because the Watcher-shaped source's first value was rejected by Verify; its Watch was never called), but the monitor is still idle in its loop 10s later", map[string]any{"case": desc, "goroutine": fw.TrimStack(g)})
+		} else if s1 == "idle" && s2 == "idle" {
+			w.Violation(i, "monitor-did-not-exit:all-done:blank-done-after-failed-setsource", "every watcher called Done with a live context (the Blank after a SetSource whose source failed its first Value()), but the monitor is still idle in its loop 10s later", map[string]any{"case": desc, "goroutine": fw.TrimStack(g)})
+		} else {
+			w.Inconclusive(i, "monitor exit not observed; state "+s1+"/"+s2)
+		}
+		return
+	}
+	w.Count("blank_done_after_failed_setsource_checked", 1)
+	if !c08Late(w, i, e, c, nil, led, desc, r) {
+		return
+	}
+	if c08LeakCheck(w, i, desc) {
+		w.Distinct(fmt.Sprintf("blank-failed-setsource|%v|%v%v%v|%v%v", shapes, plainBefore, plainAfter, blankDoneFirst, o.Delay, o.NSrc))
+	}
+}
+
+// pendingUnregisters returns the goroutines parked in the acknowledgement wait of an unregister call (innermost frame is
+// unregister itself, state select).
+func pendingUnregisters() []string {
+	var out []string
+	for _, g := range dialsGoroutines([]string{").unregister("}) {
+		lines := strings.Split(g, "\n")
+		if len(lines) > 1 && strings.Contains(lines[0], "[select") && strings.Contains(lines[1], ").unregister(") {
+			out = append(out, g)
+		}
+	}
+	return out
+}
+
+// c08PendingAtShutdown: a callback blocks forever, so the callback goroutine is parked inside user code. Unregister calls
+// issued meanwhile are accepted into the queue and wait for their acknowledgement: they are pending. Then the instance
+// shuts down (Config context cancelled, or every watcher calls Done), and after the monitor has exited the pending calls'
+// own contexts end. Each call must return then, with a failure indication (the removal was never processed: the callback
+// goroutine has been parked since before the call was issued).
+func c08PendingAtShutdown(w *fw.Worker, i int, r *fw.Rand) {
+	o := conc.Opts{NSrc: r.Range(2, 3)}
+	blocker := []string{"global-OnNewConfig", "registered-callback"}[r.Intn(2)]
+	mode := []string{"cancel", "all-done"}[r.Intn(2)]
+	nPending := r.Range(1, 3)
+	ownCtx := !r.Chance(20) // otherwise the pending calls' contexts are children of the Config context
+	desc := map[string]any{"mode": "pending-unregister-at-shutdown", "blocked_callback": blocker, "shutdown": mode, "pending_calls": nPending, "own_context": ownCtx, "watchers": o.NSrc}
+	w.BeginDesc(i, fmt.Sprintf("%v", desc))
+	e, err := conc.Start(context.Background(), r.U64(), o, nil)
+	if err != nil {
+		w.Violation(i, "config-failed", err.Error(), desc)
+		return
+	}
+	defer e.S.Cancel()
+	ctx := e.S.Ctx
+	gate := make(chan struct{})
+	var gateOnce sync.Once
+	release := func() { gateOnce.Do(func() { close(gate) }) }
+	defer release()
+	c := &c07Env{e: e}
+	led := &c08Ledger{open: map[int64]string{}}
+	var victims []dials.UnregisterCBFunc
+	reg := func(handle int, extra func(old, nw *conc.Cfg)) dials.UnregisterCBFunc {
+		_, tok := e.D.ViewVersion()
+		if r.Chance(30) {
+			tok = dials.CfgSerial[conc.Cfg]{}
+		}
+		// the callback goroutine is idle and its queue empty: the registration is accepted at once
+		return e.D.RegisterCallback(ctx, tok, e.RegisteredCB(handle, extra))
+	}
+	blockerAt := -1
+	if blocker == "registered-callback" {
+		blockerAt = r.Intn(nPending + 1)
+	} else {
+		e.SetCBGate(gate)
+	}
+	for k := 0; k <= nPending; k++ {
+		if k == blockerAt {
+			if reg(1, func(_, _ *conc.Cfg) { <-gate }) == nil {
+				w.Violation(i, "register-refused-while-a-watcher-is-live", "RegisterCallback returned nil on a live instance with an idle callback goroutine", desc)
+				return
+			}
+		}
+		if k < nPending {
+			u := reg(10+k, nil)
+			if u == nil {
+				w.Violation(i, "register-refused-while-a-watcher-is-live", "RegisterCallback returned nil on a live instance with an idle callback goroutine", desc)
+				return
+			}
+			victims = append(victims, u)
+		}
+	}
+	// a new version: its announcement parks the callback goroutine inside the blocking callback
+	rctx, rcancel := context.WithTimeout(ctx, 30*time.Second)
+	rerr := e.Srcs[r.Intn(o.NSrc)].Report(rctx, e.RandLayer(r, 0, 0), true)
+	rcancel()
+	if rerr != nil {
+		stuckVerdict(w, i, "valid blocking report on an idle instance", desc)
+		return
+	}
+	if !conc.WaitUntil(func() bool { return e.InCB() > 0 }, 10*time.Second) {
+		w.Inconclusive(i, "the callback goroutine never entered the blocking callback")
+		return
+	}
+	type pend struct {
+		res    chan bool
+		cancel context.CancelFunc
+		id     int64
+	}
+	var pending []pend
+	for k := range victims {
+		base := context.Background()
+		if !ownCtx {
+			base = ctx
+		}
+		uctx, ucancel := context.WithCancel(base)
+		defer ucancel()
+		p := pend{res: make(chan bool, 1), cancel: ucancel, id: led.begin("unregister (pending at shutdown)")}
+		go func(u dials.UnregisterCBFunc) { p.res <- u(uctx) }(victims[k])
+		pending = append(pending, p)
+	}
+	if conc.WaitUntil(func() bool { return len(pendingUnregisters()) >= len(pending) }, 5*time.Second) {
+		w.Count("unregister_calls_pending_at_shutdown", int64(len(pending)))
+	}
+	if mode == "cancel" {
+		e.S.Cancel()
+	} else {
+		for s := 0; s < o.NSrc; s++ {
+			dctx, dcancel := context.WithTimeout(ctx, 30*time.Second)
+			e.Srcs[s].WA().Done(dctx)
+			dcancel()
+		}
+	}
+	select {
+	case <-dials.VerifMonitorDone(e.D):
+	case <-time.After(10 * time.Second):
+		s1, g := monitorState()
+		time.Sleep(300 * time.Millisecond)
+		s2, _ := monitorState()
+		if s1 == s2 && (s1 == "idle" || s1 == "blocked-in-submit") {
+			w.Violation(i, "monitor-did-not-exit:"+mode+":callback-parked", "the monitor goroutine is still "+s1+" 10s after shutdown ("+mode+") while a callback blocks", map[string]any{"case": desc, "goroutine": fw.TrimStack(g)})
+		} else {
+			w.Inconclusive(i, "monitor exit not observed; state "+s1+"/"+s2)
+		}
+		return
+	}
+	// let the pending callers notice the shutdown, then end their own contexts
+	for k := r.Range(1, 20); k > 0; k-- {
+		runtime.Gosched()
+	}
+	time.Sleep(time.Duration(r.Range(10, 40)) * time.Millisecond)
+	for _, p := range pending {
+		p.cancel()
+	}
+	for _, p := range pending {
+		select {
+		case ok := <-p.res:
+			led.end(p.id)
+			w.Count("pending_calls_at_shutdown_checked", 1)
+			if ok {
+				w.Violation(i, "pending-unregister-reported-success:callback-parked", "an unregister whose event cannot have been processed (the callback goroutine has been parked inside a callback since before the call) returned true", desc)
+				return
+			}
+		case <-time.After(10 * time.Second):
+			g1 := dialsGoroutines([]string{").unregister("})
+			time.Sleep(300 * time.Millisecond)
+			g2 := dialsGoroutines([]string{").unregister("})
+			if len(g1) > 0 && len(g2) > 0 {
+				w.Violation(i, "pending-unregister-blocked-past-its-context:callback-parked", "an unregister that was pending when the instance shut down ("+mode+") is still blocked 10s after its own context was cancelled; a callback is blocking the callback goroutine", map[string]any{"case": desc, "goroutine": fw.TrimStack(g2[0])})
+			} else {
+				w.Inconclusive(i, "pending unregister did not return; not provably blocked in dials")
+			}
+			return
+		}
+	}
+	w.Count("ops_issued", led.issued.Load())
+	w.Count("ops_returned", led.returned.Load())
+	// the callback finally returns: the callback goroutine drains its queue and exits
+	release()
+	if !c08Late(w, i, e, c, victims, led, desc, r) {
+		return
+	}
+	if c08LeakCheck(w, i, desc) {
+		w.Distinct(fmt.Sprintf("pending-at-shutdown|%s|%s|%d|%v|%d", blocker, mode, nPending, ownCtx, blockerAt))
+	}
+}
+
 func runC08(w *fw.Worker) {
 	w.Cases(func(i int, r *fw.Rand) {
 		g := i*w.Shards + w.Shard
@@ -348,6 +651,10 @@ func runC08(w *fw.Worker) {
 			c08DoubleDone(w, i, r)
 		case g%40 == 31:
 			c08BlankRefusal(w, i, r)
+		case g%40 == 11:
+			c08BlankFailedSetSource(w, i, r)
+		case g%40 == 13:
+			c08PendingAtShutdown(w, i, r)
 		case g%10 == 9:
 			c08BlockedCallback(w, i, r)
 		case g%10 == 8:
@@ -507,8 +814,17 @@ func c08Chaos(w *fw.Worker, i int, r *fw.Rand) {
 						if blankDone.Load() {
 							continue
 						}
+						var inner dials.Source = &conc.Src{Name: "inner", Init: e.RandLayer(rr, 25, 5)}
+						if rr.Chance(20) {
+							// a source whose first Value() fails; half of them implement Watcher (never handed WatchArgs)
+							if rr.Bool() {
+								inner = &conc.WSrc{Src: conc.Src{Name: "inner-failing-watcher", ValueErr: errC08Value}}
+							} else {
+								inner = &conc.Src{Name: "inner-failing", ValueErr: errC08Value}
+							}
+						}
 						id := led.begin("Blank.SetSource")
-						c.blank.SetSource(octx, &conc.Src{Name: "inner", Init: e.RandLayer(rr, 25, 5)})
+						c.blank.SetSource(octx, inner)
 						led.end(id)
 						continue
 					}
